@@ -32,4 +32,5 @@ for C in "$@"; do
   KEYS=$(grep '^  key=' "$OUT" | sed 's/ cases=.*//' | sed 's/^  key=//' | head -4 | tr '\n' ' ')
   echo "SEED $NAME check=$C exit=$RC violations=$NV keys: $KEYS"
 done
+[ -n "${KEEP:-}" ] && { echo "kept $S"; exit 0; }
 cd /; git -C /repo worktree remove --force "$S/repo" >/dev/null 2>&1; rm -rf "$S"
